@@ -127,6 +127,19 @@ func (s *Sim) Deliver(b *MBlock) {
 		r.Event("deliver", "%v parent=%v class=%q mut=%q -> main=%v orphan=%v %s", b, b.Parent, b.Class, b.Mut, isMain, isOrph, res)
 		r.Sig("d:" + b.Class)
 	}
+	if pr := s.n.prunedFn(); pr != nil && err == nil {
+		// a reorganisation that attached blocks whose data the same call
+		// pruned (the retention window was shorter than the branch): such a
+		// node cannot rebuild its state after a crash; a limit of pruning
+		// with a tiny target, not a verdict (real targets keep >= 1.5 GiB)
+		nt := s.n.Tip()
+		for x := nt; x != nil && x.Height > 0 && !x.IsAncestorOf(s.prevTip); x = x.Parent {
+			if pr(x.Hash) {
+				r.Probe("prune-deleted-a-block-being-attached")
+				r.Abort("pruned node attached a block whose data it had just deleted")
+			}
+		}
+	}
 	if err == nil && !isOrph {
 		if s.ackCommit == nil {
 			s.ackCommit = map[*MBlock]int{}
